@@ -20,6 +20,8 @@ def operand(o):
 
 
 def sqf_of(op):
+    if op.get("sqf"):
+        return op["sqf"]            # a directed history states the statement itself (see directed_hashmap_histories)
     k = op["op"]
     if k == "new" and op.get("h"):
         return "%s = createHashMap" % op["x"]            # a hashmap with the keys "k0", "k1", ..: for the heap model a container whose slot i is key "k<i>"
@@ -135,6 +137,8 @@ def hashmap_as_slots(v):
             slots = {}
             for kv in v["h"]:
                 key = kv[0]
+                if key.get("t") == "a" and key["a"] and key["a"][0].get("t") == "s":
+                    key = key["a"][0]       # a key array ["k<i>", ...]: the slot is named by its first element (what else the key holds is not shown)
                 if key.get("t") != "s" or not re.fullmatch(r"k\d+", key.get("s", "")):
                     raise vlib.MachineryError("hashmap key outside the projection: %s" % key)
                 slots[int(key["s"][1:])] = hashmap_as_slots(kv[1])
@@ -168,6 +172,12 @@ def directed_hashmap_histories():
         out.append([newh("c"), new("a", []), pb("a", var("c")), hset("c", slot, var("a")), hset("c", slot, lit(5)), pb("a", lit(7))])
         out.append([newh("b"), newh("c"), hset("b", 0, var("c")), hset("c", slot, var("b")), hset("c", slot, lit(5)), hset("b", 1, lit(6))])
         out.append([newh("c"), new("a", []), new("b", [0]), pb("a", var("c")), pb("b", var("a")), hset("c", slot, var("b")), hset("c", slot, lit(5))])
+    # a cycle closed through a KEY: b holds c inside one of its keys, so storing b in c makes c contain itself. For the heap
+    # model (which does not show what keys hold) the statement is the insertion of c into itself: refused, nothing changes.
+    for slot in (0, 1):
+        out.append([newh("c"), newh("b"), dict(hset("b", 0, lit(1)), sqf='b set [["k0", c], 1]'), dict(hset("c", slot, var("c")), sqf='c set ["k%d", b]' % slot),
+                    hset("c", slot, lit(5)), hset("b", 1, lit(6))])
+    # (an ARRAY inside a key is copied when the key is captured: nothing is shared through it, no cycle can be closed that way)
     # a refused insertion over an occupied slot keeps what was there
     out.append([newh("c"), hset("c", 0, lit(4)), new("a", [1]), pb("a", var("c")), hset("c", 0, var("a")), pb("a", lit(7))])
     return out
